@@ -8,8 +8,8 @@ WORLD_PROPS = ["C01", "C02", "C04", "C05", "C06", "C10", "C13", "C15", "C16", "C
 
 TIERS = {
     # profile -> (shards, histories per shard, ops per history)
-    "quick": {"mixed": (16, 2, 220), "queries": (6, 2, 160), "par": (4, 1, 170)},
-    "thorough": {"mixed": (16, 24, 400), "queries": (8, 16, 300), "par": (8, 6, 250)},
+    "quick": {"mixed": (16, 2, 220), "queries": (6, 2, 160), "par": (4, 1, 170), "untrusted": (6, 3, 200)},
+    "thorough": {"mixed": (16, 24, 400), "queries": (8, 16, 300), "par": (8, 6, 250), "untrusted": (16, 16, 300)},
 }
 
 def scan_trace(path):
@@ -48,6 +48,12 @@ def scan_trace(path):
                 st["extend-empty-batch"] += 1
         if e.get("m") == 2:
             st["mirrored-twin-ops"] += 1
+        if op == "deser_mut":
+            st["untrusted-inputs"] += 1
+            st["untrusted:" + ("accepted" if e["res"]["ok"] else "rejected")] += 1
+            st["untrusted-kind:%s/%s" % (e["enc"], e["mkind"])] += 1
+            if e["res"]["ok"] and not e["res"]["same"]:
+                st["untrusted-accepted-modified"] += 1
         if op == "query":
             k = e["desc"]["kind"]
             st["query:" + k] += 1
@@ -202,7 +208,8 @@ def run_world(tier, seed, scripts_only=None):
             seen[prop][1] += 1
             if seen[prop][1] <= 5:
                 fails.append({"prop": prop, "line": line, "name": name, "op": op,
-                              "trace": r["trace"], "replay": seen[prop][0]})
+                              "trace": r["trace"], "replay": seen[prop][0],
+                              "profile": os.path.basename(r["trace"])[:-9]})
     out = {"tier": tier, "seed": seed, "traces": len(results), "stats": dict(stats),
            "distinct": len(sigs), "fails": fails, "samples": samples, "wall": time.time() - t0,
            "dir": d}
